@@ -48,14 +48,17 @@ def gaussPt (alpha : α) (n i : Nat) : α :=
   Fn.exp (Fn.pow (t * alpha / (Fn.ofNat (n - 1) / Fn.ofNat 2)) (Fn.ofNat 2) * (-0.5))
 def gausswin (alpha : α) (n m : Nat) : List α := (List.range m).map (gaussPt alpha n)
 
-/-- `_tukeywin` (the two early returns and the taper loop, per index) -/
+/-- `_tukeywin` (the two early returns, `w[0] = 0;` and the taper loop `for (i = 1; i < tl; ++i)`, per index).
+The first taper sample is written as the constant 0 = (1 + cos(-π))/2 (repair 1c79c46: `pi / per` overflows for a
+denormal ratio, and `cos(-inf)` is NaN). -/
 def tukeyPt (ratio : α) (n i : Nat) : α :=
   if ratio ≤ Fn.ofNat 0 then Fn.ofNat 1
   else if Fn.ofNat 1 ≤ ratio then hannPt n i
   else
     let per := ratio / Fn.ofNat 2
     let tl := Fn.floor (per * Fn.ofNat (n - 1)) + Fn.ofNat 1
-    if Fn.ofNat i < tl then
+    if i = 0 then Fn.ofNat 0
+    else if Fn.ofNat i < tl then
       (Fn.ofNat 1 + Fn.cos (Fn.pi / per * (Fn.ofNat i / Fn.ofNat (n - 1) - per))) / Fn.ofNat 2
     else Fn.ofNat 1
 def tukeywin (ratio : α) (n m : Nat) : List α := (List.range m).map (tukeyPt ratio n)
